@@ -4,6 +4,7 @@ Property theorems only. The JSON text is opaque (`save` = the serialised fields)
 rebuild loop of `TryFrom<OrderBookState>`.
 -/
 import Bourse.Model.Ops
+import Bourse.Lemmas.Reach
 
 namespace Bourse.Props.C07
 open Bourse
@@ -38,6 +39,29 @@ theorem reload_indistinguishable (b : Book) (hb : b.reload.bid = b.bid) (ha : b.
     cases b
     simp_all [Book.reload, Book.load, Book.save]
   rw [this]
+
+/-- **`load (save s) = s`** — the whole model state, both rebuilt side indexes and the stamp counter
+included — for every state satisfying the book invariant. -/
+theorem load_save (b : Book) (h : Inv b) : Book.load (Book.save b) = b := reload_eq h
+
+/-- **Every reachable state round-trips, and stays indistinguishable under every continuation**:
+after any valid fault-free history from a new book, the reloaded book is the original, hence so is
+every later state and observation, whatever operations follow. -/
+theorem reload_reachable_indistinguishable (t0 tick : Nat) (trading : Bool) (ht : 0 < tick) (ops : List Op)
+    (hv : ∀ op ∈ ops, ValidOp op) (hnf : NoFault (Book.new t0 tick trading) ops) (cont : List Op) (n : Nat) :
+    ((Book.new t0 tick trading).run ops).reload = (Book.new t0 tick trading).run ops ∧
+    (((Book.new t0 tick trading).run ops).reload.run cont).observe n =
+      (((Book.new t0 tick trading).run ops).run cont).observe n := by
+  have h := reload_eq (inv_reachable t0 tick trading ht ops hv hnf)
+  exact ⟨h, by rw [h]⟩
+
+/-- The snapshot point may be anywhere inside a history: a reload in the middle of a valid
+fault-free history is the identity step of the model. -/
+theorem reload_step_is_identity (b : Book) (h : Inv b) : (b.step .reload).1 = b := by
+  simp only [Book.step]
+  split
+  · rfl
+  · exact reload_eq h
 
 /-- Non-vacuity and a concrete instance of the round trip: a book holding unplaced, active,
 partially filled, modified, cancelled, filled and rejected orders, trading off, reloads to exactly
